@@ -106,7 +106,7 @@ func c20Diff(c *core.Ctx) {
 		gfd, _ := g.Node.(*ast.FuncDecl)
 		c20SkipLits(g.Body, func(n ast.Node) bool {
 			if rs, ok := n.(*ast.RangeStmt); ok {
-				if c20FieldOf(g, rs.X) == entF {
+				if c20FieldVia(g, rs.X) == entF {
 					hasEnt = true
 				}
 				if v := c20Var(g, rs.X); v != nil && c20ParamIndex(g, gfd, v) >= 0 {
@@ -153,6 +153,9 @@ func c20Diff(c *core.Ctx) {
 		ast.Inspect(g.Body, func(n ast.Node) bool {
 			rs, ok := n.(*ast.RangeStmt)
 			if !ok {
+				return true
+			}
+			if tv, ok := g.Info.Types[rs.X]; !ok || tv.Type == nil || !c20IsEntityMap(tv.Type) {
 				return true
 			}
 			bv := c20Var(g, rs.X)
@@ -211,6 +214,53 @@ func c20Diff(c *core.Ctx) {
 			return true
 		})
 	}
+	// callback-iterator form: watcher.forEachWanted(deleted, func(name, entity) { event.Delete[name] = … })
+	cbCalls := map[string]*ast.CallExpr{}
+	cbLits := map[string]*ast.FuncLit{}
+	var cbHost *flow.Func
+	for _, g := range reach(entry, 3) {
+		g := g
+		ast.Inspect(g.Body, func(n ast.Node) bool {
+			call, ok := n.(*ast.CallExpr)
+			if !ok {
+				return true
+			}
+			var lit *ast.FuncLit
+			var bv *types.Var
+			for _, a := range call.Args {
+				if l, ok := ast.Unparen(a).(*ast.FuncLit); ok {
+					lit = l
+				} else if tv, ok := g.Info.Types[a]; ok && tv.Type != nil && c20IsEntityMap(tv.Type) {
+					if b := c20Bucket(g, a); b != nil && b != entF && b != wEntF {
+						bv = b
+					}
+				}
+			}
+			if lit == nil || bv == nil {
+				return true
+			}
+			role := ""
+			ast.Inspect(lit.Body, func(m ast.Node) bool {
+				if as, ok := m.(*ast.AssignStmt); ok {
+					for _, st := range c20IndexStores(as) {
+						fld := c20FieldOf(g, st[0])
+						for r, ef := range evF {
+							if fld != nil && fld == ef {
+								role = r
+							}
+						}
+					}
+				}
+				return true
+			})
+			if role != "" && buckets[role] == nil {
+				buckets[role] = bv
+				cbCalls[role], cbLits[role] = call, lit
+				cbHost = g
+			}
+			return true
+		})
+	}
 	for _, role := range []string{"deleted", "created", "updated"} {
 		if buckets[role] == nil {
 			c.Errorf("R-C20-2: anchor: in %s no local map is copied into the watcher event's %s entries", cons, evF[role].Name())
@@ -233,7 +283,7 @@ func c20Diff(c *core.Ctx) {
 		if !ok {
 			return true
 		}
-		if c20FieldOf(f, rs.X) == entF && delLoop == nil {
+		if c20FieldVia(f, rs.X) == entF && delLoop == nil {
 			delLoop = rs
 		}
 		if c20Var(f, rs.X) == cfgVar && cfgLoop == nil {
@@ -267,7 +317,7 @@ func c20Diff(c *core.Ctx) {
 	// --- roles inside the configuration loop
 	var prevL *c20Lookup // `prev, ok := or.entities[name]`
 	for _, l := range c20Lookups(f, cfgLoop.Body) {
-		if l.mField == entF && c20Var(f, l.key) == cfgKey && prevL == nil {
+		if (l.mField == entF || c20FieldVia(f, l.m) == entF) && c20Var(f, l.key) == cfgKey && prevL == nil {
 			prevL = l
 		}
 	}
@@ -641,7 +691,7 @@ func c20Diff(c *core.Ctx) {
 			}
 			inDel, inCfg := contains(delLoop.Body, as), contains(cfgLoop.Body, as)
 			for _, s := range c20IndexStores(as) {
-				if c20FieldOf(f, s[0]) == entF && inCfg {
+				if c20FieldVia(f, s[0]) == entF && inCfg {
 					st.Set(evEnt, flow.True)
 				}
 				switch roleOfVar(c20Bucket(f, s[0])) {
@@ -665,7 +715,7 @@ func c20Diff(c *core.Ctx) {
 		},
 		OnCall: func(st *flow.State, call *ast.CallExpr, callee types.Object, deferred bool) {
 			if b, ok := callee.(*types.Builtin); ok && b.Name() == "delete" && len(call.Args) == 2 {
-				if c20FieldOf(f, call.Args[0]) == entF && contains(delLoop.Body, call) {
+				if c20FieldVia(f, call.Args[0]) == entF && contains(delLoop.Body, call) {
 					st.Set(evEDl, flow.True)
 				}
 			}
@@ -697,7 +747,7 @@ func c20Diff(c *core.Ctx) {
 			inDel, inCfg := contains(delLoop.Body, x), contains(cfgLoop.Body, x)
 			for _, s := range c20IndexStores(x) {
 				role := roleOfVar(c20Bucket(f, s[0]))
-				isEnt := c20FieldOf(f, s[0]) == entF
+				isEnt := c20FieldVia(f, s[0]) == entF
 				switch {
 				case role == "" && !isEnt:
 				case inDel && role == "deleted":
@@ -714,7 +764,7 @@ func c20Diff(c *core.Ctx) {
 				}
 			}
 		case *ast.CallExpr:
-			if b, ok := f.Callee(x).(*types.Builtin); ok && b.Name() == "delete" && len(x.Args) == 2 && c20FieldOf(f, x.Args[0]) == entF {
+			if b, ok := f.Callee(x).(*types.Builtin); ok && b.Name() == "delete" && len(x.Args) == 2 && c20FieldVia(f, x.Args[0]) == entF {
 				static.n++
 				if !contains(delLoop.Body, x) || c20Var(f, x.Args[1]) != delKey {
 					static.fail(nil, x, "ObjectRegistry.entities loses an entry that is not the disappeared name of the deletion loop")
@@ -772,7 +822,197 @@ func c20Diff(c *core.Ctx) {
 			sprintf("%d abstract iteration ends file a name under 'updated', all with previous kind == new kind established (%d comparison(s))", fKind.n, len(kindAtoms)))
 	}
 
+	if len(cbCalls) == 3 {
+		c20NotifyCallbacks(c, cbHost, cons, cbCalls, cbLits, evF, wEntF, chanF)
+		return
+	}
+	if len(cbCalls) > 0 {
+		c.Undecide("R-C20-2", cons+"|watcher view follows events", pos(c, cfgLoop), "the per-watcher notification mixes range loops and callback iterators")
+		return
+	}
 	c20Notify(c, notifyHost, cons, buckets, notifyLoops, evF, wEntF, chanF)
+}
+
+// c20NotifyCallbacks is c20Notify for the callback-iterator form: each class is handed, with a
+// function literal, to a same-package iterator that ranges over the map and calls the literal for
+// the entries (possibly filtered). Same three obligations, same construct keys.
+func c20NotifyCallbacks(c *core.Ctx, host *flow.Func, cons string, cbCalls map[string]*ast.CallExpr, cbLits map[string]*ast.FuncLit,
+	evF map[string]*types.Var, wEntF, chanF *types.Var) {
+	roles := []string{"deleted", "created", "updated"}
+	// the iterator: ranges over its map parameter and calls its func parameter with the loop's key and value
+	for _, r := range roles {
+		call := cbCalls[r]
+		fo, _ := host.Callee(call).(*types.Func)
+		var hfd *ast.FuncDecl
+		if fo != nil && fo.Pkg() == host.Pkg.Types {
+			hfd = declOf(host.Pkg, fo)
+		}
+		okIter := false
+		if hfd != nil {
+			h := flow.NewFunc(host.Pkg, hfd)
+			ast.Inspect(hfd.Body, func(n ast.Node) bool {
+				rs, ok := n.(*ast.RangeStmt)
+				if !ok || c20ParamIndex(h, hfd, c20Var(h, rs.X)) < 0 || rs.Value == nil {
+					return true
+				}
+				k, v := c20Var(h, rs.Key), c20Var(h, rs.Value)
+				for _, cc := range calls(rs.Body, false) {
+					if pv := c20Var(h, cc.Fun); pv != nil && c20ParamIndex(h, hfd, pv) >= 0 && len(cc.Args) == 2 &&
+						c20Var(h, cc.Args[0]) == k && c20Var(h, cc.Args[1]) == v && k != nil && len(enclosingLoops(rs.Body, cc)) == 0 {
+						okIter = true
+					}
+				}
+				return true
+			})
+		}
+		if !okIter {
+			c.Undecide("R-C20-2", cons+"|watcher view follows events", pos(c, call), "the "+r+" objects are handed to a helper with a function literal, but the helper is not recognisable as an iterator over the map (range over its map parameter calling its func parameter with key and value)")
+			return
+		}
+	}
+	// the function (literal) holding the three calls
+	g := host
+	var outer *ast.FuncLit
+	ast.Inspect(host.Body, func(n ast.Node) bool {
+		if l, ok := n.(*ast.FuncLit); ok && contains(l, cbCalls["deleted"]) && l != cbLits["deleted"] {
+			outer = l
+		}
+		return true
+	})
+	if outer != nil {
+		g = host.Lit(outer)
+	}
+	for _, r := range roles {
+		if !contains(g.Body, cbCalls[r]) {
+			c.Undecide("R-C20-2", cons+"|watcher view follows events", pos(c, cbCalls[r]), "the three per-watcher iterator calls are not in the same function (literal)")
+			return
+		}
+	}
+	var fView, fOrder, fSend c20Finding
+	// per class: inside the literal the event entry and the watcher's view move together
+	for _, r := range roles {
+		lit := cbLits[r]
+		lf := host.Lit(lit)
+		var pk, pv *types.Var
+		if ps := lit.Type.Params; ps != nil {
+			var ids []*ast.Ident
+			for _, fl := range ps.List {
+				ids = append(ids, fl.Names...)
+			}
+			if len(ids) == 2 {
+				pk, _ = lf.Info.Defs[ids[0]].(*types.Var)
+				pv, _ = lf.Info.Defs[ids[1]].(*types.Var)
+			}
+		}
+		res := analyze(c, lf, flow.Config{
+			NoHavoc: true,
+			OnNode: func(st *flow.State, n ast.Node) {
+				if as, ok := n.(*ast.AssignStmt); ok {
+					for _, s := range c20IndexStores(as) {
+						fld := c20FieldOf(lf, s[0])
+						if fld == evF[r] {
+							st.Set("ev:event", flow.True)
+						}
+						if fld == wEntF {
+							st.Set("ev:view", flow.True)
+						}
+					}
+				}
+			},
+			OnCall: func(st *flow.State, call *ast.CallExpr, callee types.Object, deferred bool) {
+				if b, ok := callee.(*types.Builtin); ok && b.Name() == "delete" && len(call.Args) == 2 && c20FieldOf(lf, call.Args[0]) == wEntF {
+					st.Set("ev:view", flow.True)
+				}
+			},
+		})
+		if res == nil {
+			return
+		}
+		for _, ex := range res.Exits {
+			if ex.Kind != flow.ExitReturn {
+				continue
+			}
+			fView.n++
+			if ex.State.Is("ev:event", flow.True) != ex.State.Is("ev:view", flow.True) {
+				fView.fail(ex.State, lit, "for a "+r+" object the watcher's event and the watcher's own entities map do not move together: Entities() diverges from the events the watcher has delivered")
+			}
+		}
+		ast.Inspect(lit.Body, func(n ast.Node) bool {
+			switch x := n.(type) {
+			case *ast.AssignStmt:
+				for _, s := range c20IndexStores(x) {
+					fld := c20FieldOf(lf, s[0])
+					if fld == evF[r] || fld == wEntF {
+						if pk == nil || c20Var(lf, s[1]) != pk || s[2] == nil || c20Var(lf, s[2]) != pv {
+							fView.fail(nil, x, "the "+r+" callback of the watcher notification stores a name/entity other than the one it is called with")
+						}
+						if r == "deleted" && fld == wEntF {
+							fView.fail(nil, x, "a deleted object is written into the watcher's entities instead of being removed")
+						}
+					}
+				}
+			case *ast.CallExpr:
+				if b, ok := lf.Callee(x).(*types.Builtin); ok && b.Name() == "delete" && len(x.Args) == 2 && c20FieldOf(lf, x.Args[0]) == wEntF {
+					if r != "deleted" || c20Var(lf, x.Args[1]) != pk {
+						fView.fail(nil, x, "the watcher's entities map loses an entry that is not the deleted name")
+					}
+				}
+			}
+			return true
+		})
+	}
+	// order of the three classes and the send
+	roleOfCall := map[*ast.CallExpr]string{}
+	for _, r := range roles {
+		roleOfCall[cbCalls[r]] = r
+	}
+	var sends []*ast.SendStmt
+	res := analyze(c, g, flow.Config{
+		NoHavoc: true,
+		OnCall: func(st *flow.State, call *ast.CallExpr, callee types.Object, deferred bool) {
+			r := roleOfCall[call]
+			if r == "" {
+				return
+			}
+			if r == "created" {
+				fOrder.n++
+				if !st.Is("ev:done:deleted", flow.True) {
+					fOrder.fail(st, call, "the watcher applies creations before the deletions of the same snapshot are finished: a name that is deleted and re-created in one snapshot (kind change) ends up removed from the watcher's view")
+				}
+			}
+			st.Set("ev:done:"+r, flow.True)
+		},
+		OnNode: func(st *flow.State, n ast.Node) {
+			if x, ok := n.(*ast.SendStmt); ok && c20FieldOf(g, x.Chan) == chanF {
+				fSend.n++
+				for _, r := range roles {
+					if !st.Is("ev:done:"+r, flow.True) {
+						fSend.fail(st, x, "the watcher event is sent before the "+r+" objects of the snapshot were collected: they are never delivered to the handler")
+					}
+				}
+			}
+		},
+	})
+	if res == nil {
+		return
+	}
+	ast.Inspect(g.Body, func(n ast.Node) bool {
+		if x, ok := n.(*ast.SendStmt); ok && c20FieldOf(g, x.Chan) == chanF {
+			sends = append(sends, x)
+		}
+		return true
+	})
+	c.RequireCount("R-C20-2", "abstract ends of the three per-watcher callbacks", fView.n, 3)
+	fView.report(c, "R-C20-2", cons+"|watcher view follows events", cbCalls["deleted"],
+		sprintf("%d abstract callback ends: event entry set ⇔ watcher.entities updated", fView.n))
+	fOrder.report(c, "R-C20-2", cons+"|watcher applies deletions before creations", cbCalls["created"],
+		sprintf("%d states reach the creation iterator, all after the deletion iterator", fOrder.n))
+	if len(sends) == 0 || fSend.n == 0 {
+		c.Violate("R-C20-2", cons+"|event sent after all classes", pos(c, cbCalls["updated"]), "the collected event is never sent on the watcher's channel: no handler ever reconciles the snapshot")
+	} else {
+		fSend.report(c, "R-C20-2", cons+"|event sent after all classes", sends[0],
+			sprintf("%d states reach the send, all after the three iterators", fSend.n))
+	}
 }
 
 // c20Notify checks the per-watcher part of applyConfig: for every class the event map and the
